@@ -9,8 +9,9 @@ LEAN_MODULES = ['Cellml.Props.C09']
 N = {'quick': 800, 'thorough': 25000}
 RULE = ('random acyclic equation systems of 3-14 variables built through Model.add_variable / create_quantity / '
         'add_equation (shapes: chain, diamond, layered, wide, star, random DAG; ODEs whose derivatives are used on other '
-        'right-hand sides; shared sub-expressions and shared Quantity objects; ten kinds of dependency that vanish when '
-        'numbers are substituted; names whose str keys collide in prefix / case / digit order); 4-7 request sets per '
+        'right-hand sides; shared sub-expressions and shared Quantity objects; twelve kinds of dependency that vanish when '
+        'numbers are substituted; nine shapes (products of 3+ factors, with and without Quantities) in which a defined '
+        'variable would cancel only after multiplying out and therefore must NOT vanish, in about half of the systems; names whose str keys collide in prefix / case / digit order); 4-7 request sets per '
         'system (all non-empty subsets when there are at most 3 equations), each with both recurse and both strip_units; '
         'every query is asked twice and once more on a second Model built with variables and equations inserted in a '
         'different order; ~12% malformed systems (cycle, cycle that vanishes after substitution, dangling reference, '
@@ -35,7 +36,8 @@ NAMES = ['a', 'a_b', 'A', 'b10', 'b9', 'B', 'Da', 'D', 'Derivativf', 'E', 'C', '
          'Alpha', 'beta', 'i_Na', 'I_Na', 'g_K', 'membrane$V', 'membrane$v', 'sodium$m', 'Derivative', 'Dz', 'a1',
          'a10', 'a2', 'A_', 'A0', 'b90', 'b09']
 FREE = ['time', 't', 'T', 'tau', 'environment$time', 'Time']
-VANISH = ['zero', 'diff', 'cancel', 'pow0', 'zero2', 'zerodiv', 'pw', 'exp0', 'zeroexp', 'paren']
+VANISH = ['zero', 'diff', 'cancel', 'pow0', 'zero2', 'zerodiv', 'pw', 'exp0', 'zeroexp', 'paren', 'qdiff2', 'qdiff3']
+XCANCEL = ['q3', 'q3', 'q4', 'abc', 'abcq', 'reord', 'powf', 'expf', 'sharedq']
 LIVE = ['lin', 'sq', 'exp', 'prod', 'div', 'pw', 'sub']
 SHAPES = ['chain', 'diamond', 'layered', 'wide', 'star', 'dag', 'dag', 'dense']
 
@@ -101,7 +103,42 @@ def vanish_term(rng, n, d, others):
         return ['exp', ['mul', ['q', 0.0], D]]
     if form == 'zeroexp':
         return ['mul', ['q', 0.0], ['exp', ['mul', ['q', 0.25], D]]]
+    if form == 'qdiff2':      # number * (x - e1) - number * (x - e2): SymPy distributes a numeric coefficient, x cancels
+        return ['sub', ['mul', ['q', c], ['sub', D, ['q', 1.0]]], ['mul', ['q', c], ['sub', D, ['q', 3.0]]]]
+    if form == 'qdiff3':      # the same with two numeric factors, which merge into one coefficient
+        return ['sub', ['mul', ['q', c], ['q', 0.5], ['sub', D, ['q', 1.0]]],
+                ['mul', ['q', c], ['q', 0.5], ['sub', D, ['q', 3.0]]]]
     return ['mul', ['add', D, ['q', 1.0]], ['q', 0.0]]
+
+
+def xcancel_term(rng, n, d, factors):
+    """A term in which `d` would cancel only if the products were multiplied out — SymPy does not do that on its
+    own when there are three or more factors, so `d` stays referenced before AND after number substitution and the
+    returned (stripped) right-hand side still mentions it: g*y*(V - E1) - g*y*(V - E2),  a*(x + b)*c - c*a*(x + d), ...
+    `factors` are references to other quantities of the system (never `d`)."""
+    form = rng.choice(XCANCEL)
+    D = ref_spec(n, d)
+    F1 = ref_spec(n, rng.choice(factors))
+    F2 = ref_spec(n, rng.choice(factors))
+    c = rng.choice([2.0, 3.0, 0.5, 1.5, -2.0])
+    e1, e2 = rng.sample([1.0, 3.0, 0.25, -1.0, 2.0], 2)
+    if form == 'q3':
+        return ['sub', ['mul', ['q', c], F1, ['sub', D, ['q', e1]]], ['mul', ['q', c], F1, ['sub', D, ['q', e2]]]]
+    if form == 'q4':
+        return ['sub', ['mul', ['q', c], F1, F2, ['sub', D, ['q', e1]]], ['mul', ['q', c], F1, F2, ['sub', D, ['q', e2]]]]
+    if form == 'abc':         # no Quantity inside the term at all
+        return ['sub', ['mul', F1, ['add', D, F2], F2], ['mul', F2, F1, ['add', D, F1]]]
+    if form == 'abcq':
+        return ['sub', ['mul', F1, ['add', D, ['q', e1]], F2], ['mul', F2, F1, ['add', D, ['q', e2]]]]
+    if form == 'reord':
+        return ['sub', ['mul', ['sub', D, ['q', e1]], F1, ['q', c]], ['mul', F1, ['sub', D, ['q', e2]], ['q', c]]]
+    if form == 'powf':
+        return ['sub', ['mul', ['pow', F1, 2], ['q', c], ['sub', D, ['q', e1]]],
+                ['mul', ['q', c], ['pow', F1, 2], ['sub', D, ['q', e2]]]]
+    if form == 'expf':
+        return ['sub', ['mul', ['exp', ['mul', ['q', 0.25], F1]], ['q', c], ['sub', D, F2]],
+                ['mul', ['q', c], ['exp', ['mul', ['q', 0.25], F1]], ['sub', D, ['q', e2]]]]
+    return ['sub', ['mul', ['qs', 0], F1, ['sub', D, ['q', e1]]], ['mul', ['qs', 0], F1, ['sub', D, ['q', e2]]]]
 
 
 def choose_deps(rng, shape, i, avail):
@@ -140,6 +177,8 @@ def gen_system(rng):
     defined = order[:n_eq]
     states &= set(defined)
     p_vanish = rng.choice([0.0, 0.15, 0.15, 0.35])
+    p_xc = rng.choice([0.0, 0.1, 0.25, 0.5])
+    n_xc = 0
     n_shared = rng.randint(0, 2)
     shared, shared_deps = [], []
     eqs, avail = [], []
@@ -148,15 +187,25 @@ def gen_system(rng):
         # state variables and the free variable never create cycles
         extras = [s for s in states if rng.random() < 0.25] + ([n] if states and rng.random() < 0.2 else [])
         deps += [e for e in extras if e not in deps]
+        # dependencies that occur ONLY inside a shape that would cancel after multiplying out (they must survive)
+        protected = set(d for d in deps if d in avail and rng.random() < p_xc)
+        factors = [x for x in deps if x not in protected] or \
+            [x for x in avail + sorted(states) + ([n] if states else []) if x not in protected]
+        if not factors:
+            protected = set()
         terms = [['q', float(rng.randint(1, 9))]]
         for d in deps:
-            others = [x for x in deps if x != d]
-            if rng.random() < p_vanish:
+            others = [x for x in deps if x != d and x not in protected]
+            if d in protected:
+                terms.append(xcancel_term(rng, n, d, factors))
+                n_xc += 1
+            elif rng.random() < p_vanish:
                 terms.append(vanish_term(rng, n, d, others))
                 if rng.random() < 0.2:
                     terms.append(live_term(rng, n, d, others))   # vanishes in one place, survives in another
             else:
                 terms.append(live_term(rng, n, d, others))
+        deps = [d for d in deps if d not in protected]
         if shared and rng.random() < 0.4:
             k = rng.randrange(len(shared))
             terms.append(['s', k])          # its references are all earlier in the dependency order
@@ -173,7 +222,7 @@ def gen_system(rng):
     rng.shuffle(eqs)
     init = {str(s): float(rng.randint(1, 5)) for s in states}
     return {'names': pool, 'free': free, 'init': init, 'eqs': eqs, 'shared': shared, 'quants': [2.0, 0.0, 0.5],
-            'shape': shape, 'kind': 'valid', 'dups': []}
+            'shape': shape, 'kind': 'valid', 'dups': [], 'xc': n_xc}
 
 
 def gen_queries(rng, case, extra_nodes=()):
@@ -298,7 +347,14 @@ def corpus():
                    {'lhs': ['d', 0], 'rhs': ['add', ['mul', ['q', -2.0], ['v', 0]], ['mul', ['t'], ['v', 1]]]},
                    {'lhs': ['v', 4], 'rhs': ['mul', ['exp', ['v', 3]], ['v', 5]]},
                    {'lhs': ['v', 5], 'rhs': ['q', 3.0]}]}
-    return [finish(rng, diamond), finish(rng, ode)]
+    # i = g*y*(V - E1) - g*y*(V - E2): V cancels only after multiplying out, so its equation must stay in the stripped list
+    expand_only = {'names': ['i', 'V', 'y'], 'free': 't', 'init': {}, 'shared': [], 'quants': [2.0, 0.0, 0.5],
+                   'shape': 'dag', 'kind': 'valid', 'dups': [], 'xc': 1,
+                   'eqs': [{'lhs': ['v', 0], 'rhs': ['sub', ['mul', ['q', 2.0], ['v', 2], ['sub', ['v', 1], ['q', 1.0]]],
+                                                     ['mul', ['q', 2.0], ['v', 2], ['sub', ['v', 1], ['q', 3.0]]]]},
+                           {'lhs': ['v', 1], 'rhs': ['q', 1.5]},
+                           {'lhs': ['v', 2], 'rhs': ['q', 0.5]}]}
+    return [finish(rng, diamond), finish(rng, ode), finish(rng, expand_only)]
 
 
 # ---------------------------------------------------------------------------------------------- implementation
@@ -614,6 +670,9 @@ def oracle(case, obs):
                 if u in eq_of:
                     if u in pos and pos[u] > i:
                         fails.append({'key': 'use-before-definition', 'detail': '%s: %s uses %s, defined later' % (where, name(v), name(u))})
+                    elif u not in pos and q['recurse']:
+                        fails.append({'key': 'use-before-definition', 'detail': '%s: %s uses %s, which has an equation '
+                                      'that is not in the list' % (where, name(v), name(u))})
                 elif not (u == n or (u < n and (n + 1 + u) in eq_of)):
                     fails.append({'key': 'undefined-non-state', 'detail': '%s: %s uses %s' % (where, name(v), name(u))})
         # determinism: second call, and a second model with another insertion order
@@ -659,8 +718,9 @@ def tag(case, obs):
             plain = sizes[(req, rec, False)]
             dropped = dropped or len(res) < len(plain)
             reordered = reordered or (len(res) == len(plain) and res != plain)
-    return '%s odes=%s strip=%s' % (case['shape'], 'yes' if odes else 'no',
-                                    'drops' if dropped else ('reorders' if reordered else 'same'))
+    return '%s odes=%s strip=%s%s' % (case['shape'], 'yes' if odes else 'no',
+                                      'drops' if dropped else ('reorders' if reordered else 'same'),
+                                      ' expand-only' if case.get('xc') else '')
 
 
 MANIFEST = {
